@@ -33,10 +33,10 @@ from .. import core
 # scratch directories live on tmpfs when there is one (the drivers do many small file operations)
 SCRATCH = "/dev/shm" if os.path.isdir("/dev/shm") and os.access("/dev/shm", os.W_OK) else None
 PID = "C25"
-INVARIANTS = ["TypeOK", "C25_FreshWhenCheckable", "C25_StaleOnlyWhenUncheckable", "C25_Capacity",
-              "C25_Size0Recompiles", "C25_OrderIsRecency", "C25_SelectFirstExisting", "C25_FreshFlag"]
-PROPERTIES = ["C25_NeverReloadWhenOff", "C25_HitWhenFresh", "C25_EvictsLRU", "C25_UnboundedKeeps",
-              "C25_SelectFindsSomething"]
+INVARIANTS = ["TypeOK", "C25_FreshWhenCheckable", "C25_StaleOnlyWhenUncheckable", "C25_NeverReloadWhenOff",
+              "C25_HitWhenFresh", "C25_Capacity", "C25_Size0Recompiles", "C25_OrderIsRecency",
+              "C25_SelectFirstExisting", "C25_SelectFindsSomething", "C25_FreshFlag"]
+PROPERTIES = ["C25_EvictsLRU", "C25_UnboundedKeeps"]
 ACTIONS = ["Get", "Select", "Modify", "Delete", "Add", "Touch", "Overlay"]
 ALL_KINDS = ["dict", "fnstr", "fntriple", "fs"]
 
@@ -494,8 +494,9 @@ def run(ck):
     jobs = []
     for size in (0, 1, 2, -1):
         nm = names2 if quick and size < 0 else names3
-        nv = 2 if quick or size < 0 else 3
-        jobs.append((f"inv{size}", nm, nv, size, ALL_KINDS, both, False, 4, quick and size == 2))
+        nv = 2 if quick else 3
+        jobs.append((f"inv{size}", nm, nv, size, ALL_KINDS, both, False, 4 if quick or size >= 0 else 8,
+                     quick and size == 2))
     # -- 2. graph export for the replay --------------------------------------------------------
     if quick:
         gjobs = [("g0", names3, 2, 0, ALL_KINDS, both), ("g1", names3, 2, 1, ALL_KINDS, both),
